@@ -746,6 +746,9 @@ def replay_cases(job):
                     with Image.open(tile) as im:
                         if im.size == (256, 256) and got["proj"] == "SkyImage":
                             stats["padded"] += 1
+                        else:
+                            findings.append(("D", "padded", "the model says a %d x %d image is served as the padded 256 x 256 tile of an untiled SkyImage; found a %s tile, Projection %s %s"
+                                             % (cs["dims"][2], cs["dims"][3], im.size, got["proj"], where)))
     finally:
         shutil.rmtree(root, ignore_errors=True)
     return findings, stats
@@ -858,11 +861,11 @@ def _main(ctx, pool, scratch, quick, t0):
                     cfg_text=fs_cfg(flav, handler, kinds, maxev, inv, sizes="{1, 2}" if quick else "{1, 2, 3}"), workers=3 if quick else 5, timeout=3000)
         return r, (r.json_lines("R") if emit else [])
 
-    def tlc_fa():
-        name = "MCG08Astro"
-        # quick: the theorems in one invariant (headers and result computed once per state); thorough: also one by one
+    def tlc_fa(prefix=P):
+        name = "MCG08Astro" + ("" if prefix == P else prefix)
+        # the theorems in one invariant (headers and result computed once per state)
         r = ctx.tlc(name, extra={name + ".tla": tla.module(name, ["MCFeedAstrometry"], [])},
-                    cfg_text=fa_cfg(P, ["TheoremsAndEmit"]), workers=4 if quick else 6, timeout=6000)
+                    cfg_text=fa_cfg(prefix, ["TheoremsAndEmit"]), workers=4 if quick else 6, timeout=6000)
         return r, r.json_lines("A")
 
     def tlc_fa_named():
@@ -894,6 +897,7 @@ def _main(ctx, pool, scratch, quick, t0):
         f_scan = tex.submit(tlc_scan)
         f_rec = tex.submit(tlc_fs, "astropix", "recorded" if handler == "aborts" else "aborts", False) if not quick else None   # the other handler
         f_named = tex.submit(tlc_fa_named) if not quick else None
+        f_faq = tex.submit(tlc_fa, "Q") if not quick else None          # the thorough tier replays the quick tier's cases too
 
         futs = []
         # ---- the page scanner
@@ -944,6 +948,9 @@ def _main(ctx, pool, scratch, quick, t0):
                 ctx.sample({"protocol_behaviour": {k: x[0][k] for k in ("flav", "feed0", "size", "tail", "evs", "first", "last", "acts")}})
         # ---- the metadata cases
         r_fa, cases = f_fa.result()
+        if f_faq is not None:
+            have = set(json.dumps(x["cs"], sort_keys=True) for x in cases)
+            cases = cases + [x for x in f_faq.result()[1] if json.dumps(x["cs"], sort_keys=True) not in have]
         fa_ref = {}
         for inv in FA_IDEALS:
             wit = [x for x in cases if x["ideal"][inv] is False]
